@@ -80,6 +80,12 @@ def gen_world(seed, tier):
     for k in rng.sample(["use_subgraph_scanning_lowerbound", "use_min_gen_set_lowerbound", "optimize_with_guessed_weights", "optimize_with_greedy"], rng.randint(1, 3)):
         oo2[k] = True if k != "optimize_with_greedy" else False
     pool["oo2"] = {"type": "dict", "v": oo2}
+    r4 = random.Random(H(seed, "c18oo3"))
+    oo3 = {k_: True for k_ in r4.sample(["optimize_with_safe_sequences_fix_via_bounds", "optimize_with_safe_sequences_allow_geq_constraints",
+                                         "optimize_with_safe_sequences_fix_zero_edges", "optimize_with_safety_as_subset_constraints"], r4.randint(1, 2))}
+    if r4.random() < 0.5:
+        oo3["optimize_with_safe_sequences_fix_via_bounds"] = True      # the route through the wrapper's queued bound updates
+    pool["oo3"] = {"type": "dict", "v": oo3}
     so0 = {"threads": rng.choice([1, 2, 4])} if rng.random() < 0.5 else {}
     if rng.random() < 0.4:
         so0["time_limit"] = rng.choice([200, 3600])     # far above anything a whole search can need (<= ~10 solves x 10 s)
@@ -172,6 +178,8 @@ def gen_world(seed, tier):
             args["solution_weights_superset"] = list(gd["weights"]) + [rng.randint(1, 4)]
         if rng.random() < 0.08:
             args["k"] = 0                       # a constructor that raises (after touching shared state?)
+        if cname in models.CYCLIC_CLASSES and rngn.random() < 0.5:
+            args["optimization_options"] = "@oo3"       # the walk models' own options (fixing via bounds, >= rows, ...)
         if cname not in models.COVER_CLASSES and rngn.random() < (0.5 if cname == "MinFlowDecompCycles" else 0.25):
             # the node-weighted reading of the same graph (the model expands nodes internally and condenses the routes again)
             args["G"] = "@G4" if gname == "G1" else "@G3"
@@ -209,6 +217,14 @@ def gen_world(seed, tier):
                 ops.append({"op": "pause", "h": h, "seconds": rng.choice([30, 100, 1000, 5000, 20000])})
             ops.append({"op": s, "h": h})
         h += 1
+    # a model that is constructed, then left alone while the next one is constructed and used, then solved
+    hs = sorted({o["h"] for o in ops})
+    for a_, b_ in zip(hs[:-1], hs[1:]):
+        if r4.random() < 0.4:
+            later = [o for o in ops if o["h"] == a_ and o["op"] != "construct"]
+            rest = [o for o in ops if not (o["h"] == a_ and o["op"] != "construct")]
+            last_b = max(i for i, o in enumerate(rest) if o["h"] == b_)
+            ops = rest[:last_b + 1] + later + rest[last_b + 1:]
     # interleave a little: move some getter ops of earlier models to the end
     tail = [o for o in ops if o["op"] in ("get_solution", "get_objective_value") and rng.random() < 0.3]
     ops = [o for o in ops if o not in tail] + tail
